@@ -70,7 +70,11 @@ func planHash(cfg Config, p Plan) string {
 func runSeed(base uint64, prop string, i int) uint64 { return Mix(MixStr(base, prop), uint64(i)) }
 
 // GenCase generates the configuration and plan of run i.
+// curTier is the tier of the batch executed by this process.
+var curTier = "quick"
+
 func GenCase(spec *PropSpec, base uint64, tier string, i int) (uint64, Config, Plan) {
+	curTier = tier
 	seed := runSeed(base, spec.ID, i)
 	p := NewPRNG(seed)
 	cfg := spec.GenConfig(p, tier)
@@ -87,6 +91,7 @@ func ExecCase(spec *PropSpec, seed uint64, cfg Config, plan Plan) (r *Run) {
 func execCase(spec *PropSpec, seed uint64, cfg Config, plan Plan, noKnown bool) (r *Run) {
 	r = NewRun(spec.ID, seed, cfg, plan, spec.Monitors())
 	r.NoKnown = noKnown
+	r.Tier = curTier
 	r.NoPanicGuard = spec.PanicsAreViolations
 	defer func() {
 		if rec := recover(); rec != nil {
